@@ -210,6 +210,14 @@ def totalVolume [Add K] [Mul K] [OfNat K 0] [OfNat K 1] [NatCast K] (subs : List
   | .none => totalVolumeLoop subs (rangeInt subs.length) 1
   | .list l => totalVolumeLoop subs l 1
 
+/-- SPECIFICATION side: the volume factor of sub-domain `ind` at the multi-index `idx`
+    (a scalar `dvol` is the same everywhere, an array `dvol` is indexed by the sub-domain's own index) -/
+def dvolAt [OfNat K 0] [OfNat K 1] (subs : List (SubDom K)) (ind : Nat) (idx : Idx) : K :=
+  match (subs.getD ind default).dvol with
+  | .none => 1
+  | .scalar w => w
+  | .vector w => w.getD (idx.getD ind 0) 0
+
 /-- the loop of Field.weight: scalar volumes are collected in `fct`, non-scalar ones are broadcast along their
     sub-domain and multiplied out of place (`aout = aout * wgt**power`, so integer data becomes float —
     this is the code repaired by fixes/C06_int_weight_nonscalar_dvol.diff; the unrepaired `aout *= wgt**power`
@@ -272,18 +280,19 @@ def integrate [Add K] [Mul K] [OfNat K 0] [OfNat K 1] [Inv K] [DecidableEq K] (f
     | .error e => .error e
     | .ok tmp => fsum tmp sp
 
-/-- number of contracted entries, as NumPy's `mean` divides by it -/
-def countOf (mask : List Bool) (sizes : List Nat) : Nat := prodNat (sel true mask sizes)
+/-- number of contracted entries, as NumPy's `mean` counts them: product of the lengths of the reduced axes in the
+    order of `axis` (= order of `spaces`) -/
+def countOf (sizes : List Nat) (l : List Nat) : Nat := prodNat (l.map fun i => sizes.getD i 1)
 
 /-- `x.mean(axis=…)` = sum / count -/
-def npMean [Add K] [Mul K] [OfNat K 0] [Inv K] [NatCast K] (mask : List Bool) (sizes : List Nat) (x : Idx → K) :
-    Idx → K :=
-  fun o => contract mask sizes x o * ((countOf mask sizes : K))⁻¹
+def npMean [Add K] [Mul K] [OfNat K 0] [Inv K] [NatCast K] (l : List Nat) (mask : List Bool) (sizes : List Nat)
+    (x : Idx → K) : Idx → K :=
+  fun o => contract mask sizes x o * ((countOf sizes l : K))⁻¹
 
 /-- `x.var(axis=…)` = mean(|x − mean(x)|²) (population variance; `nsq` is `|·|²`) -/
 def npVar [Add K] [Sub K] [Mul K] [OfNat K 0] [Inv K] [NatCast K] (nsq : K → K)
-    (mask : List Bool) (sizes : List Nat) (x : Idx → K) : Idx → K :=
-  fun o => npMean mask sizes (fun i => nsq (x i - npMean mask sizes x (sel false mask i))) o
+    (l : List Nat) (mask : List Bool) (sizes : List Nat) (x : Idx → K) : Idx → K :=
+  fun o => npMean l mask sizes (fun i => nsq (x i - npMean l mask sizes x (sel false mask i))) o
 
 /-- Field.mean(spaces): uniform volumes → np.mean; otherwise weighted sum times 1/total_volume -/
 def mean [Add K] [Mul K] [OfNat K 0] [OfNat K 1] [Inv K] [NatCast K] [DecidableEq K] (f : Fld K) (sp : Spaces) :
@@ -293,7 +302,7 @@ def mean [Add K] [Mul K] [OfNat K 0] [OfNat K 1] [Inv K] [NatCast K] [DecidableE
   | .ok (some _) =>
     match parseSpaces sp f.subs.length with
     | .error e => .error e
-    | .ok l => .ok (contractFld f l (max f.dt DT.float) npMean)
+    | .ok l => .ok (contractFld f l (max f.dt DT.float) (npMean l))
   | .ok none =>
     match weight f 1 sp with
     | .error e => .error e
@@ -316,7 +325,7 @@ def var [Add K] [Sub K] [Mul K] [OfNat K 0] [OfNat K 1] [Inv K] [NatCast K] [Dec
   | .ok (some _) =>
     match parseSpaces sp f.subs.length with
     | .error e => .error e
-    | .ok l => .ok (contractFld f l DT.float (npVar nsq))
+    | .ok l => .ok (contractFld f l DT.float (npVar nsq l))
   | .ok none =>
     match mean f sp with
     | .error e => .error e
@@ -394,8 +403,8 @@ def sVar [Add K] [Sub K] [Mul K] [OfNat K 0] [OfNat K 1] [Inv K] [NatCast K] [De
   match scalarWeight f.subs .none with
   | .error e => .error e
   | .ok (some _) =>
-    let mask := maskOf f.subs.length (List.range f.subs.length)
-    .ok (npVar nsq mask f.sizes f.val [])
+    let l := List.range f.subs.length
+    .ok (npVar nsq l (maskOf f.subs.length l) f.sizes f.val [])
   | .ok none =>
     match sMean f with
     | .error e => .error e
